@@ -3,7 +3,7 @@ from . import common as C
 from .gens import *
 
 PROP = "C13"
-LEAN_MODULE = "RSV.Props.C13"
+LEAN_MODULE = "RSV.Props.C13all"
 RULE = ("proof: for every input length, (d,p), rounding q and every amount/content of spare capacity the modelled Split equals "
         "its specification (input followed by zeros cut into d+p equal shards whose length is a multiple of q), Join of the "
         "result with outSize = len returns the input, and Join's error cases write nothing. Correspondence: Split of every length "
